@@ -59,7 +59,7 @@ class Ctx:
 
     def lib_configs(self):
         if self.tier == "thorough":
-            return ["default", "nodefault", "jsononly", "actix", "axum"]
+            return ["default", "jsononly", "actix", "axum"]
         return ["default"]
 
 
